@@ -1256,11 +1256,17 @@ class AgProtocol(utils.EventEmitter):
 
             # Isolate the AT response code and parameters.
             raw_command = self.read_buffer[:trailer]
-            command = AtCommand.parse_from(raw_command)
-            logger.debug(f"<<< {raw_command.decode()}")
 
-            # Consume the response bytes.
+            # Consume the command bytes (even if the command turns out to be invalid)
             self.read_buffer = self.read_buffer[trailer + 1 :]
+
+            try:
+                command = AtCommand.parse_from(raw_command)
+            except Exception:
+                logger.warning('invalid AT command %r', bytes(raw_command))
+                self.send_error()
+                continue
+            logger.debug(f"<<< {raw_command!r}")
 
             if command.sub_code == AtCommand.SubCode.TEST:
                 handler_name = f'_on_{command.code.lower()}_test'
